@@ -419,6 +419,9 @@ def check_C01(rep, fl):
     # ... and every key add() un-charges is named in the victim list it returns
     import props_store
     props_store.keep_rules(rep, fl, check_C07, {"R07.6"})
+    # ... and the TTL sweep releases the charge of exactly the entries it removes (a resident entry that lost its
+    # charge lets later admissions overfill the cache)
+    props_store.check_sweeper(rep, fl)
     # R01.9: the charge the policy released for a victim is matched by the entry leaving the store - otherwise the
     # resident entries add up to more than max_cost while `used` looks fine
     import props_life
